@@ -275,6 +275,9 @@ func (it *Interp) toFun(o *ByteObj) {
 }
 
 func (it *Interp) bytesAt(b Bytes, i *Term) *Term {
+	if b.Obj == nil {
+		return it.ctx.BV(0, 8)
+	}
 	return it.objAt(b.Obj, it.ctx.Bin(OpAdd, b.Off, i))
 }
 
